@@ -686,3 +686,28 @@ def _(it, a, info):
 def _(it, a, info):
     from models_iter import ListIter
     v = deref(a[0]); return ListIter([Ref(v.f, 0)] if v.variant in ('Ok', 'Some') else [])
+
+@model('slice::sort_by_cached_key', 'slice::sort_by_key', 'Vec::sort_by_key', 'Vec::sort_by_cached_key', 'slice::sort_unstable_by_key')
+def _(it, a, info):
+    v = a[0]; base, lo, hi = it.seq_items(deref(v) if not isinstance(v, SliceRef) else v)
+    import functools
+    keyed = [(call_closure_like(it, a[1], [Ref(base, i)]), base[i]) for i in range(lo, hi)]
+    keyed.sort(key=functools.cmp_to_key(lambda x, y: compare(it, x[0], y[0])))
+    base[lo:hi] = [x[1] for x in keyed]; return UNIT
+@model('slice::sort_by', 'Vec::sort_by', 'slice::sort_unstable_by')
+def _(it, a, info):
+    v = a[0]; base, lo, hi = it.seq_items(deref(v) if not isinstance(v, SliceRef) else v)
+    import functools
+    def cmp(x, y):
+        r = call_closure_like(it, a[1], [Ref([x], 0), Ref([y], 0)])
+        return {'Less': -1, 'Equal': 0, 'Greater': 1}[r.variant]
+    base[lo:hi] = sorted(base[lo:hi], key=functools.cmp_to_key(cmp)); return UNIT
+@model('slice::binary_search')
+def _(it, a, info):
+    items = as_items(a[0]); x = deref(a[1]); lo, hi = 0, len(items)
+    while lo < hi:
+        mid = (lo + hi) // 2; c = compare(it, items[mid], x)
+        if c == 0: return ok(mid)
+        if c < 0: lo = mid + 1
+        else: hi = mid
+    return err(lo)
